@@ -143,6 +143,15 @@ func c04Signers() []c04Signer {
 			ca := c04CA(kind)
 			return ca, nil, nil, nil
 		}},
+		{"trusted-signer-without-SKI-signs-in-the-issuers-name", false, func(kind string) (*world.Ident, []*world.Ident, []*x509.Certificate, *world.Ident) {
+			// a configured trusted signer with another name and without subject key identifier (a legacy certificate) signs
+			// a CRL in the issuing CA's name: it matches neither the CRL's issuer name nor the key the CRL's authority key
+			// identifier names (where the CRL names the signer's own - absent - key identifier nothing identifies it either)
+			ca := c04CA(kind)
+			legacy := world.Issue(nil, world.CertOpt{CN: "legacy crl signer " + kind, IsCA: true, KeyKind: kind, KeyIdx: 4, Serial: big.NewInt(43)})
+			legacy = world.WithoutExtension(legacy, legacy, world.OIDSKI)
+			return ca, []*world.Ident{ca, p.Root}, []*x509.Certificate{legacy.Cert}, legacy
+		}},
 		{"unrelated-key", false, func(kind string) (*world.Ident, []*world.Ident, []*x509.Certificate, *world.Ident) {
 			ca := c04CA(kind)
 			un := world.Issue(nil, world.CertOpt{CN: "unrelated " + kind, IsCA: true, KeyKind: kind, KeyIdx: 4, Serial: big.NewInt(33)})
